@@ -779,6 +779,20 @@ def run_composed(ctx, chi, c):
          and core.close(cs[2], np.concatenate(dt_parts)), inp)
     want = np.concatenate(([np.hstack(bottoms).flatten()] if bottoms else []) + tops)
     spec(ctx, 'C05.additive/reduced', core.close(cr[1], want), inp, {'chi': cr[1], 'parts': want})
+    # eta handed over as the flat hierarchical vector (individual-major, NO entries for pooled / heterogeneous
+    # dimensions — the layout HierarchicalLogLikelihood uses) gives the same individual parameters as the matrix
+    hc_ = [j_ for x, (_, _, pd, d, _) in zip(subs, offs) if x[0] in HIER for j_ in range(pd, pd + d)]
+    if hc_:
+        def indiv(e):
+            with np.errstate(all='ignore'):
+                return np.asarray(cm.compute_individual_parameters(params, e, **kw), float)
+        p_mat = chi_call(lambda: indiv(obs.copy()))
+        p_flat = chi_call(lambda: indiv(obs[:, hc_].flatten()))
+        ok_ = (isinstance(p_mat, str) and isinstance(p_flat, str) and p_mat == p_flat) or (
+            not isinstance(p_mat, str) and not isinstance(p_flat, str) and p_mat.shape == p_flat.shape
+            and np.array_equal(np.isnan(p_mat), np.isnan(p_flat)) and core.close(np.nan_to_num(p_flat), np.nan_to_num(p_mat)))
+        spec(ctx, 'C05.layout_invariant/flat_eta/ComposedPopulationModel.compute_individual_parameters', ok_, inp,
+             {'matrix eta': p_mat, 'flat hierarchical eta': p_flat, 'hierarchical columns': hc_})
     # finite differences of the composed value in hierarchical coordinates
     if guard != 'inside':
         return
